@@ -467,3 +467,55 @@ package cache
 //@   ensures result1 ==> forall j int :: {records[j]} 0 <= j && j < len(records) ==> inst(result0) <= inst(now) + time.Duration(hdrOf(records[j]).Ttl) * 1000000000
 //@   ensures result1 ==> forall j int :: {records[j]} 0 <= j && j < len(records) && dyntype(records[j], *dns.RRSIG) ==> inst(result0) <= inst(now) + time.Duration(as(records[j], *dns.RRSIG).OrigTtl) * 1000000000 && inst(result0) <= int64(as(records[j], *dns.RRSIG).Expiration) * 1000000000
 //@   ensures result1 ==> forall j int :: {records[j]} 0 <= j && j < len(records) && dyntype(records[j], *dns.SOA) ==> inst(result0) <= inst(now) + time.Duration(as(records[j], *dns.SOA).Minttl) * 1000000000
+//@
+//@ # ---- C03 / C04 / C12: the hit chokepoint (abstracting tier). Nothing of an entry is used — no limiter token, no
+//@ # prefetch claim, no bytes, no message — before the full-preimage verification against the client's own question, CD
+//@ # bit and the scope the key was built from; a rebuilt message is written only when the entry was still live, and the
+//@ # request tree is bound to the entry's lifetime before anything is derived from it; the alias chase is depth-capped
+//@ func (*Cache).handleCacheHit
+//@   abstract
+//@   nosafety all pre
+//@   assert at call middleware/cache.entryMatchesKey#1: arg0 == entry && arg1.Question == req.Question[0] && arg1.CD == req.CheckingDisabled && arg1.Scope == scope
+//@   assert at call (*middleware/cache.CacheEntry).GetRateLimiter#1: lastret("middleware/cache.entryMatchesKey")
+//@   assert at call (*middleware/cache.CacheEntry).ToMsg#1: lastret("middleware/cache.entryMatchesKey") && arg0 == entry && arg1 == req
+//@   assert at call (middleware.ResponseWriter).WriteMsg#1: lastret("(*middleware/cache.CacheEntry).ToMsg") != nil && calls("middleware/cache.boundRequestToEntryLifetime") >= 1
+//@   assert at call (*middleware/cache.Cache).additionalAnswer#1: lastret("middleware/cache.cnameChaseDepth") < maxCnameChaseDepth && calls("middleware/cache.boundRequestToEntryLifetime") >= 1
+//@   assert at call middleware/cache.withCnameChaseDepth#1: arg1 == lastret("middleware/cache.cnameChaseDepth") + 1
+//@   assert at return#1: !result && calls("(*middleware/cache.CacheEntry).GetRateLimiter") == 0
+//@
+//@ func (*Cache).handleCacheHit$1
+//@   abstract
+//@   nosafety all pre
+//@   assert at call (middleware.WireWriter).WriteWire#1: lastret("(*middleware/cache.CacheEntry).serveWire", 2) && arg1 == lastret("(*middleware/cache.CacheEntry).serveWire") && !lastret("(middleware.ResponseWriter).Internal") && lastret("(*middleware/cache.CacheEntry).wireEligibleFor") && lastret("(*middleware/cache.CacheEntry).wireChainMismatch") == nil
+//@   assert at call (*middleware/cache.CacheEntry).serveWire#1: arg1 == req && arg0 == entry
+//@
+//@ # ---- C19 / C03: ECS scope. The client's scope is derived only for policy-allowed clients, from the FIRST subnet
+//@ # option, as address/source-prefix (IPv4-mapped addresses unmapped); the scoped probe tries only prefixes of the
+//@ # client's own address, from its source length down to /1, and returns the scope the found key was built from
+//@ func (*Cache).requestScope
+//@   abstract
+//@   nosafety all pre
+//@   assert at call (net/netip.Addr).Prefix#1: lastret("(*internal/ecs.Policy).Allows") && arg1 == int(sub.SourceNetmask) && lastret("net/netip.AddrFromSlice", 1)
+//@   assert at return#5: result == lastret("(net/netip.Addr).Prefix") && lastret("(net/netip.Addr).Prefix", 1) == nil && lastret("(*internal/ecs.Policy).Allows")
+//@
+//@ func (*Cache).scopedLookup
+//@   abstract
+//@   nosafety all pre
+//@   assert at call (net/netip.Addr).Prefix#1: arg0 == lastret("(net/netip.Prefix).Addr") && arg1 == bits && bits >= 1 && prefixValid(clientPrefix)
+//@   assert at call (net/netip.Prefix).Addr#1: arg0 == clientPrefix
+//@   assert at call (middleware/cache.CacheKey).Hash#1: arg0.Question == q && arg0.CD == cd && arg0.Scope == lastret("(net/netip.Addr).Prefix") && lastret("(net/netip.Addr).Prefix", 1) == nil
+//@   assert at return#2: result0 == lastret("(*middleware/cache.Store).LookupByKey") && lastret("(*middleware/cache.Store).LookupByKey", 1) && result1 == lastret("(middleware/cache.CacheKey).Hash") && result2 == lastret("(net/netip.Addr).Prefix")
+//@   assert at return#1: result0 == nil
+//@   assert at return#3: result0 == nil
+//@
+//@ # shared denial state is never consulted for a CD request, a request with a derived client scope, or a tree that
+//@ # bypasses shared denial; the aggressive proof index additionally never for a request carrying any ECS option
+//@ func (*Cache).lookupNXDomainCut
+//@   abstract
+//@   nosafety all pre
+//@   assert at call (*middleware/cache.Store).LookupNXDomainCut#1: !req.CheckingDisabled && !prefixValid(clientScope) && !lastret("middleware/cache.sharedDenialBypass") && arg1 == req
+//@ func (*Cache).lookupDenialProof
+//@   abstract
+//@   nosafety all pre
+//@   assert at call (*middleware/cache.Store).lookupDenialProofWithExpiry#1: !prefixValid(clientScope) && !lastret("middleware/cache.hasEDNSClientSubnet") && !lastret("middleware/cache.sharedDenialBypass") && arg1 == req
+//@   assert at call middleware/cache.hasEDNSClientSubnet#1: !req.CheckingDisabled && len(req.Question) == 1
